@@ -186,7 +186,12 @@ func (l *listener) handle(conn net.Conn) {
 	start := time.Now()
 	err = l.compiledRoute.Handle(cx)
 	duration := time.Since(start)
-	if err != nil && !errors.Is(err, errHijacked) {
+	if errors.Is(err, errHijacked) {
+		// the connection belongs to the consumer of the wrapped listener now:
+		// its counters are counted up over there
+		return
+	}
+	if err != nil {
 		l.logger.Error("handling connection", zap.Error(err))
 	}
 
